@@ -161,6 +161,15 @@ fn bin_method(m: &str, l: SimpleExpr, rj: &J) -> SimpleExpr {
         let c = col_of(rj);
         return if m == "equals" { ExprTrait::equals(l, c) } else { ExprTrait::not_equals(l, c) };
     }
+    if m == "in_tuples" {
+        // right side: a tuple of value rows
+        assert!(rj["k"] == "tuple", "case error: in_tuples needs a tuple of value rows");
+        let rows: Vec<ValueTuple> = rj["es"].as_array().unwrap().iter().map(|row| {
+            assert!(row["k"] == "vals", "case error: in_tuples rows are value rows");
+            crate::stmt::value_tuple(row["vs"].as_array().unwrap().iter().map(to_value).collect())
+        }).collect();
+        return ExprTrait::in_tuples(l, rows);
+    }
     let r = expr(rj);
     match m {
         "add" => ExprTrait::add(l, r),
@@ -197,7 +206,67 @@ fn bin_method(m: &str, l: SimpleExpr, rj: &J) -> SimpleExpr {
     }
 }
 
+/// "x": true — the node is built through the `Expr` struct's methods (Expr::expr(operand).method(..))
+/// instead of the ExprTrait methods on SimpleExpr; None when the form has no such method.
+fn expr_via_struct(j: &J) -> Option<SimpleExpr> {
+    let k = j["k"].as_str().unwrap();
+    let neg = j["neg"].as_bool().unwrap_or(false);
+    let e = |f: &str| Expr::expr(expr(&j[f]));
+    Some(match k {
+        "bin" => {
+            let l = Expr::expr(expr(&j["l"]));
+            let m = j.get("m").and_then(|m| m.as_str())?;
+            if m == "equals" || m == "not_equals" {
+                let c = col_of(&j["r"]);
+                return Some(if m == "equals" { l.equals(c) } else { l.not_equals(c) });
+            }
+            if m == "in_tuples" {
+                let rows: Vec<ValueTuple> = j["r"]["es"].as_array().unwrap().iter()
+                    .map(|row| crate::stmt::value_tuple(row["vs"].as_array().unwrap().iter().map(to_value).collect())).collect();
+                return Some(l.in_tuples(rows));
+            }
+            let r = expr(&j["r"]);
+            match m {
+                "eq" => l.eq(r), "ne" => l.ne(r), "gt" => l.gt(r), "gte" => l.gte(r), "lt" => l.lt(r), "lte" => l.lte(r),
+                "add" => l.add(r), "sub" => l.sub(r), "mul" => l.mul(r), "div" => l.div(r), "modulo" => l.modulo(r),
+                "left_shift" => l.left_shift(r), "right_shift" => l.right_shift(r), "is" => l.is(r), "is_not" => l.is_not(r),
+                _ => return None,
+            }
+        }
+        "not" => e("e").not(),
+        "between" => if neg { e("e").not_between(expr(&j["a"]), expr(&j["b"])) } else { e("e").between(expr(&j["a"]), expr(&j["b"])) },
+        "like" => {
+            if j["ci"].as_bool().unwrap_or(false) { return None; }
+            let mut l = LikeExpr::new(st(j, "p"));
+            if let Some(c) = j.get("esc").and_then(|x| x.as_str()) { l = l.escape(c.chars().next().unwrap()); }
+            if neg { e("e").not_like(l) } else { e("e").like(l) }
+        }
+        "in" => if neg { e("e").is_not_in(exprs(&j["vs"])) } else { e("e").is_in(exprs(&j["vs"])) },
+        "insub" => { let q = stmt::select(&j["q"]); if neg { e("e").not_in_subquery(q) } else { e("e").in_subquery(q) } }
+        "isnull" => if neg { e("e").is_not_null() } else { e("e").is_null() },
+        "cast" => e("e").cast_as(a(&st(j, "ty"))),
+        "asenum" => e("e").as_enum(a(&st(j, "ty"))),
+        "fn" => {
+            let args = j["args"].as_array().unwrap();
+            let first = || Expr::expr(expr(&args[0]));
+            match (j["f"].as_str().unwrap(), args.len()) {
+                ("Max", 1) => first().max(), ("Min", 1) => first().min(), ("Sum", 1) => first().sum(),
+                ("Count", 1) => first().count(), ("CountDistinct", 1) => first().count_distinct(),
+                ("IfNull", 2) => first().if_null(expr(&args[1])),
+                _ => return None,
+            }
+        }
+        _ => return None,
+    })
+}
+
 pub fn expr(j: &J) -> SimpleExpr {
+    if j.get("x").and_then(|x| x.as_bool()).unwrap_or(false) {
+        match expr_via_struct(j) {
+            Some(e) => return e,
+            None => panic!("case error: no Expr-struct method for {j}"),
+        }
+    }
     let k = j["k"].as_str().unwrap_or_else(|| panic!("expr.k missing in {j}"));
     match k {
         "col" => SimpleExpr::Column(col_of(j)),
